@@ -151,6 +151,24 @@ def run(chk):
                                       'setter': any(op['op'] == 'set' for op in sc['ops'])})
     for sc, o in zip(scs, obs):
         setter_judge(chk, sc, o)
+    # an apply worker that is killed inside its task is replaced: the replacement is THE instance of that id (no id is held by two
+    # live instances, every task still sees its own worker's id and private state)
+    ks = []
+    for _ in range(24 if chk.tier == 'quick' else 300):
+        nj = rng.choice([2, 3, 4])
+        k = rng.randint(nj + 1, 2 * nj + 2)
+        victim = rng.randrange(nj)
+        ks.append({'seed': rng.randint(0, 10 ** 6), 'pool': {'n_jobs': nj, 'start_method': 'fork', 'pass_worker_id': True, 'use_worker_state': True,
+                                                           'shared_objects': rng.random() < .5}, 'relax_shape': True,
+                   'ops': [{'op': 'apply_batch', 'tasks': [{'idx': i, 'gap': 0.01} for i in range(k)], 'dur': {'kind': 'map', 'map': {}, 'default': 0.05}, 'get_timeout': 30},
+                           {'op': 'apply_batch', 'tasks': [{'idx': i} for i in range(nj)], 'dur': {'kind': 'map', 'map': {}, 'default': 0.02}, 'get_timeout': 30}],
+                   'inject': [{'kind': 'sigkill', 'victim': 'Worker-%d' % victim, 'when': 'in_user', 'nth': rng.randint(1, 3)}]})
+        if rng.random() < .5:
+            # two workers die within one round of the death watch (the OOM killer rarely stops at one)
+            other = rng.choice([w for w in range(nj) if w != victim])
+            ks[-1]['inject'].append({'kind': 'sigkill', 'victim': 'Worker-%d' % other, 'when': 'in_user', 'nth': ks[-1]['inject'][0]['nth']})
+    run_scenarios(chk, 'an apply worker killed inside its task and replaced: ids and state of the instances (DetSim)', ks, {'C13'},
+                  nontrivial=lambda sc, o: bool(o.get('injected')), dist=lambda sc, o: {'n_jobs': sc['pool']['n_jobs'], 'victim': sc['inject'][0]['victim']})
 
     def search():
         extra = id_scenarios(random.Random(chk.seed * 29 + 1), 800)
